@@ -164,7 +164,11 @@ func TestVF_C18_Paths(t *testing.T) {
 				if idx%nshards != shard {
 					continue
 				}
-				c := c18Case{Root: r.Name, Paths: []string{p.String()}, Depth: d, Bad: c18Hex("\xff\xfe")}
+				bad := "\xff\xfe"
+				if d%2 == 1 {
+					bad = "h\xc3\xa9llo \xe2\x80\x9cq\xe2\x80\x9d-\xff\xfe" // valid multi-byte characters in front of the invalid bytes
+				}
+				c := c18Case{Root: r.Name, Paths: []string{p.String()}, Depth: d, Bad: c18Hex(bad)}
 				if err := c18Run(c, maxRepeat); err != nil {
 					c18Fail(t, st, part, c, err)
 				}
@@ -235,7 +239,8 @@ func TestVF_C18_Random(t *testing.T) {
 			tg = append(tg, rp{r, ps})
 		}
 	}
-	badRuns := []string{"\xff", "\xfe\xff", "\xc3\x28", "\xe2\x82", "\xf0\x9f\x98", "\xed\xa0\x80", "\xc0\xaf", "\x80", "\xf8\x88\x80\x80\x80", "a\xffb\xffc"}
+	badRuns := []string{"\xff", "\xfe\xff", "\xc3\x28", "\xe2\x82", "\xf0\x9f\x98", "\xed\xa0\x80", "\xc0\xaf", "\x80", "\xf8\x88\x80\x80\x80", "a\xffb\xffc",
+		"\xc3\xa9\xff", "\xe6\x97\xa5\xe6\x9c\xac\x80-x", "\xf0\x9f\x98\x80 ok \xc3\x28", "\xe2\x80\x9cquoted\xe2\x80\x9d\xed\xa0\x80"}
 	rapid.Check(t, func(rt *rapid.T) {
 		g := tg[rapid.IntRange(0, len(tg)-1).Draw(rt, "root")]
 		k := rapid.IntRange(1, 4).Draw(rt, "npaths")
